@@ -256,6 +256,7 @@ def run(plan, ctx):
     had_bad = False
     compared_after_bad = 0
     carry_sets = []
+    intr_sites = set()
     for ev in H:
         i = ev["i"]
         st = steps[i]
@@ -324,6 +325,7 @@ def run(plan, ctx):
             if ev.get("fired"):
                 had_bad = True
                 bump("intr_where:" + str(ev.get("where", "?")).split(":")[0])
+                intr_sites.add(str(ev.get("where")))
             continue    # I2: nothing compared on an interrupted step
         prun = ctx.get("pristine_run") or fork_run
         if plan.get("cold") and ctx.get("cold") is not None:
@@ -350,6 +352,7 @@ def run(plan, ctx):
         if not ev.get("ok") or (fk and ev.get("fired")):
             had_bad = True
     stats["distinct_carry"] = sorted(set(carry_sets))
+    stats["interruption_sites"] = sorted(intr_sites)
     return {"violations": viol, "stats": stats, "log": D.sha(log),
             "nontrivial": bool(compared_after_bad)}
 
